@@ -1,18 +1,18 @@
 CONSTANTS
-  NI = 2
-  NV = 2
-  MaxOps = 3
-  MaxCrashes = 1
+  NI = 3
+  NV = 4
+  MaxOps = 100000
+  MaxCrashes = 0
   SnapEvery = 2
-  RotAfter = 1
+  RotAfter = 0
   FixCompactOrder = TRUE
   SeedSeqFromSnapshot = TRUE
-  AnyRot = FALSE
-  MaxBatch = 0
+  AnyRot = TRUE
+  MaxBatch = 3
   PostUnlinkPersist = TRUE
-  WithUmeta = FALSE
-INIT Init
-NEXT Next
+  WithUmeta = TRUE
+SPECIFICATION TSpec
+INVARIANT Report
 INVARIANT CrashSafe
 INVARIANT Quiescent
 INVARIANT SeqFresh
